@@ -308,6 +308,7 @@ impl<Aux> Vm<'_, Aux> {
         let src = func.pos;
         let end = program.bytecode.len() - 1;
         let len = self.runtime_data.value_stack.len() as u32;
+        let frames = self.runtime_data.call_stack.len();
 
         // a function call needs 2 stack frames, 1 for the current scope, another for the return
         // address
@@ -326,7 +327,12 @@ impl<Aux> Vm<'_, Aux> {
                     closure,
                     closure_object,
                 })
-                .map_err(|_| ExecutionErrorPayload::CallStackOverflow)?;
+                .map_err(|_| {
+                    while self.runtime_data.call_stack.len() > frames {
+                        self.runtime_data.call_stack.pop();
+                    }
+                    ExecutionErrorPayload::CallStackOverflow
+                })?;
         }
 
         let mut instr_ptr = src as usize;
@@ -342,7 +348,21 @@ impl<Aux> Vm<'_, Aux> {
             call_h: self.runtime_data.call_stack.len() as u32,
             ok: res.is_ok(),
         });
-        res?;
+        if let Err(err) = res {
+            // the callee failed. The host function that called it may handle the error and carry on, so the stacks go
+            // back to what they were before the call (without the arguments, which the callee took over): the captured
+            // variables of the abandoned frames are closed, their values and call frames dropped
+            let base = (len - arity) as usize;
+            if self.runtime_data.value_stack.len() > base {
+                let start = unsafe { self.runtime_data.value_stack.as_slice().as_ptr().add(base) };
+                let _ = instr_execution::_close_upvalues(self, start);
+                self.runtime_data.value_stack.clear_until(base);
+            }
+            while self.runtime_data.call_stack.len() > frames {
+                self.runtime_data.call_stack.pop();
+            }
+            return Err(err);
+        }
         // pop the trap callframe
         self.runtime_data.call_stack.pop();
         Ok(self.stack_pop())
